@@ -82,6 +82,12 @@ def adder_scaler(sc, n):
     return bcast(sc.get('adder'), n, F(0)), bcast(sc.get('scaler'), n, F(1))
 
 
+def has_negative(sc):
+    """does this scaling spec have a negative total scaler somewhere?"""
+    n = max([len(v) for v in sc.values() if isinstance(v, list)] + [1])
+    return any(t < 0 for t in adder_scaler(sc, n)[1])
+
+
 def ufactor(units):
     for s, d, f in UNITS:
         if [s, d] == list(units):
@@ -638,12 +644,12 @@ def flat_records(p, cap, xds, with_jac):
     return recs or [], bounds, fobj, gobj
 
 
-def contract_violation(recs, bounds, xd):
-    """scipy's side of the contract at the returned design (probe 0): worst violation of the
-    records / bounds it was given."""
+def contract_violation(recs, bounds, xd, k):
+    """Worst violation, at probe k (driver design xd), of the records / bounds scipy was given
+    (k = 0: the returned design, i.e. scipy's side of the contract)."""
     worst = 0.0
     for r in recs:
-        v = float(unrat(r['v'][0]))
+        v = float(unrat(r['v'][k]))
         if r['t'] == 'eq':
             worst = max(worst, abs(v))
         elif r['t'] == 'ineq':
@@ -740,6 +746,8 @@ def fd_consistent(p, cap, xd):
         elif hasattr(c, 'fun'):
             rows.append(np.ravel(c.jac(xd)))
     A = np.array(rows)
+    keep = np.abs(vals(xd)) < 1e20        # `INF_BOUND - g` records: differences vanish in floats
+    A, J = A[keep], J[keep]
     return bool(np.allclose(A, J, rtol=1e-4, atol=1e-5 * (1 + np.abs(J).max())))
 
 
@@ -779,12 +787,19 @@ def run_one(case, scal, dry=False):
             try:
                 res['samples'] = replay_samples(p, cap)
                 # what scipy was given, at result.x and at the probe designs
+                extra = list(case['probes'])
+                if case.get('cert'):
+                    extra = [case['cert']['x']] + extra      # probe 1: the certified optimum
                 probes = [xd.tolist()] + [[float(v) for v in scale_x(case, scal, [unrat(e) for e in pr])]
-                                          for pr in case['probes']]
+                                          for pr in extra]
                 res['probes_d'] = [rats(q) for q in probes]
                 res['records'], res['bounds'], res['fobj'], res['gobj'] = \
                     flat_records(p, cap, probes, grad_opt)
-                res['contract'] = contract_violation(res['records'], res['bounds'], xd.tolist())
+                res['contract'] = contract_violation(res['records'], res['bounds'], probes[0], 0)
+                if case.get('cert'):
+                    # is the true optimum admissible for the problem scipy was given?
+                    res['contract_xstar'] = contract_violation(res['records'], res['bounds'],
+                                                               probes[1], 1)
                 if res['success'] and grad_opt and case.get('cert'):
                     xs = [float(unrat(v)) for v in case['cert']['x']]
                     xm = [float(unrat(v)) for v in res['x_model']]
@@ -1299,11 +1314,17 @@ class C21(Property):
             xs = ex.check_certificate()
             dist = max(abs(float(a) - float(b)) / max(1.0, abs(float(b))) for a, b in zip(xm, xs))
             if dist > TOL_OPTIMUM:
-                if pure and contract_ok and r.get('fd_consistent') is True:
-                    pass    # correct callbacks, correct Jacobians: the optimizer's own early stop
+                posed = r.get('contract_xstar', 0.0) <= 1e-7
+                if pure and contract_ok and r.get('fd_consistent') is True and posed:
+                    # correct callbacks and Jacobians, and the true optimum is admissible for what
+                    # scipy was given: the optimizer's own early stop, not the glue
+                    pass
                 else:
                     fails.append({'clause': 'optimum', 'what': 'reported design is not the optimum',
-                                  'distance': dist, 'fd_consistent': r.get('fd_consistent')})
+                                  'distance': dist, 'fd_consistent': r.get('fd_consistent'),
+                                  'cause': ('stale_callbacks' if not pure else
+                                            'optimum_excluded_by_passed_bounds' if not posed else
+                                            'jacobian_inconsistent')})
         return fails
 
     def pure(self, r):
@@ -1355,10 +1376,11 @@ class C21(Property):
         return out
 
     def signature(self, case, impl, failure):
+        neg = any(has_negative(part) for sc in case['scalings'] for part in sc['cons'] + sc['dvs'])
         return {'style': 'old' if case['opt'] in OLD_STYLE else 'new', 'optimizer': case['opt'],
                 'clause': failure.get('clause'), 'pure': failure.get('pure'),
                 'cause': failure.get('cause'), 'pattern': failure.get('pattern'),
-                'side': failure.get('side')}
+                'side': failure.get('side'), 'negative_scaler': neg}
 
     def nontrivial(self, case, impl):
         return any(r.get('success') for r in impl['runs'])
